@@ -58,6 +58,7 @@ func runC01(c *Ctx) {
 		c.Anchor("O1.1", "package core/schedule")
 		return
 	}
+	c01ClosedForms(c)
 	// ---- O1.1
 	{
 		n := 0
@@ -504,5 +505,135 @@ func runC01(c *Ctx) {
 			}
 		})
 		c.Check(ok, "O1.4", fk(nc)+":parts-kept-in-given-order", nc.Pos(), "the composite stores the given slice of parts unchanged (order of succession)")
+	}
+}
+
+// ---- O1.8: the closed forms, read as exact algebra
+
+func c01ClosedForms(c *Ctx) {
+	c.Rule("O1.8", "closed forms (float arithmetic read as exact real arithmetic, rounding not modelled): with s = duration in seconds and r(t) the configured rate - r = ops for const, r(t) = from + (to-from)*t/s for line - the time T(i) that the profile's DoAt function returns for token i satisfies integral_0^T r = i identically in (i, rates, duration), on the branch of the square root that gives the earliest non-negative instant; the token budget handed to NewDoAtSchedule is the truncation of integral_0^s r; and a line with from == to is the const profile of that rate")
+	P := c.P
+	sNewDoAt := Spec{"./core/schedule", "", "NewDoAtSchedule"}
+	billion := AlgInt(1_000_000_000)
+	for _, name := range []string{"NewConst", "NewLine"} {
+		fn := P.Func("core/schedule", "", name)
+		if fn == nil {
+			c.Anchor("O1.8", "core/schedule."+name)
+			continue
+		}
+		env := &AlgEnv{Bind: map[ssa.Value]Alg{}, NonNeg: map[string]bool{}}
+		var rates []Alg
+		var dur *ssa.Parameter
+		for _, p := range fn.Params {
+			if isFloatType(p.Type()) {
+				env.Bind[p] = AlgVar(p.Name())
+				env.NonNeg[p.Name()] = true
+				rates = append(rates, AlgVar(p.Name()))
+			} else if _, n := NamedOf(p.Type()); n == "Duration" {
+				env.Bind[p] = AlgVar("D")
+				dur = p
+			}
+		}
+		want := 1
+		if name == "NewLine" {
+			want = 2
+		}
+		if dur == nil || len(rates) != want {
+			c.Anchor("O1.8", name+"(rate..., duration)")
+			continue
+		}
+		s, _ := AlgVar("D").Div(billion) // seconds
+		// integral of the rate from 0 to t
+		integral := func(t Alg) (Alg, bool) {
+			if name == "NewConst" {
+				return rates[0].Mul(t)
+			}
+			// from*t + (to-from)*t^2/(2s)
+			a, _ := rates[0].Mul(t)
+			d, _ := rates[1].Sub(rates[0])
+			tt, ok := t.Mul(t)
+			if !ok {
+				return Alg{}, false
+			}
+			b, ok := d.Mul(tt)
+			if !ok {
+				return Alg{}, false
+			}
+			twoS, _ := AlgInt(2).Mul(s)
+			b, ok = b.Div(twoS)
+			if !ok {
+				return Alg{}, false
+			}
+			return a.Add(b, 1)
+		}
+		nSched := 0
+		for _, cl := range Calls(fn, sNewDoAt) {
+			cc := CC(cl)
+			if k, isK := ConstInt(cc.Args[1]); isK && k == 0 {
+				continue // a zero-token schedule (pause): nothing to schedule
+			}
+			nSched++
+			// token budget
+			env.Truncs, env.Why = 0, ""
+			n, ok := env.Eval(cc.Args[1], 0)
+			total, _ := integral(s)
+			if !ok {
+				c.Unknown("O1.8", fk(fn)+":token-budget-is-the-integral-over-the-duration", cl.Pos(), "the token budget is not an arithmetic expression this rule can read: "+env.Why)
+			} else {
+				c.Check(n.Eq(total) && env.Truncs == 1, "O1.8", fk(fn)+":token-budget-is-the-integral-over-the-duration", cl.Pos(),
+					fmt.Sprintf("n = trunc(%s); integral of the rate over the duration = %s; float->int truncations on the way: %d (want exactly the final one)", n, total, env.Truncs))
+			}
+			// token time
+			env.Truncs, env.Why = 0, ""
+			tNs, ok := env.ClosureResult(cc.Args[2], []Alg{AlgVar("i")}, 0)
+			if !ok {
+				c.Unknown("O1.8", fk(fn)+":token-time-inverts-the-integral", cl.Pos(), "the DoAt function is not a closed form this rule can read: "+env.Why)
+				continue
+			}
+			t, _ := tNs.Div(billion)
+			it, ok := integral(t)
+			c.Check(ok && it.Eq(AlgVar("i")), "O1.8", fk(fn)+":token-time-inverts-the-integral", cl.Pos(),
+				fmt.Sprintf("T(i) = %s ns; integral of the rate up to T(i) = %s (want i)", tNs, it))
+			if name == "NewLine" {
+				// earliest instant: the root taken is (sqrt(...) - b)/a, i.e. the coefficient of the square root times the slope is a positive constant
+				q, rad := tNs.RootCoefficient()
+				d, _ := rates[1].Sub(rates[0])
+				slope, _ := d.Div(s)
+				qa, _ := q.Mul(slope)
+				k, isK := qa.ConstValue()
+				c.Check(rad != nil && isK && k.Sign() > 0, "O1.8", fk(fn)+":earliest-root", cl.Pos(),
+					fmt.Sprintf("coefficient of the square root times the slope = %s (want a positive constant: the other root is negative for rising lines and the later crossing for falling ones)", qa))
+			}
+		}
+		c.Floor("O1.8", "token-carrying NewDoAtSchedule calls in "+name, nSched, 1)
+		if name == "NewLine" {
+			// from == to: delegated to the const profile of that rate and the same duration
+			nDel := 0
+			EachInstr(fn, func(in ssa.Instruction) {
+				ret, ok := in.(*ssa.Return)
+				if !ok || len(ret.Results) != 1 {
+					return
+				}
+				cl, _ := CallOfValue(ret.Results[0])
+				if cl == nil || MatchCC(&cl.Call, sNewDoAt) {
+					return
+				}
+				nDel++
+				okDel := MatchCC(&cl.Call, Spec{"./core/schedule", "", "NewConst"}) && len(cl.Call.Args) == 2 && cl.Call.Args[1] == ssa.Value(dur)
+				if okDel {
+					r, ok := env.Eval(cl.Call.Args[0], 0)
+					okDel = ok && (r.Eq(rates[0]) || r.Eq(rates[1]))
+					eq := false
+					for _, f := range CmpFactsAt(ret) {
+						if f.Op == token.EQL && ((f.X == ssa.Value(fn.Params[0]) && f.Y == ssa.Value(fn.Params[1])) || (f.X == ssa.Value(fn.Params[1]) && f.Y == ssa.Value(fn.Params[0]))) {
+							eq = true
+						}
+					}
+					okDel = okDel && eq
+				}
+				c.Check(okDel, "O1.8", fk(fn)+":flat-line-is-the-const-profile", ret.Pos(), "a return that does not build the line's own schedule must be NewConst(from, duration) on the from == to edge (the slope is 0 there and the quadratic form divides by it)")
+			})
+			_ = nDel
+		}
 	}
 }
